@@ -57,6 +57,12 @@ class TLSSession(Session):
 
     def close(self):
         self._closing.set()
+        try:
+            # wake the session thread if it is blocked in recv() (select reports
+            # the socket readable for TLS records that carry no application data)
+            self._socket.shutdown(socket.SHUT_RDWR)
+        except (OSError, ValueError):
+            pass
         self._socket.close()
         self._connected = False
         # Wait for the session thread to finish: no listener is called once
